@@ -95,6 +95,15 @@ def insertMode (m : Mode) : List Mode → List Mode
 (listed sorted by id), the given placeholder as active mode, nothing changed yet.  `St.init = St.config [] Mode.blank`. -/
 def St.config (modes : List Mode) (active : Mode) : St := ⟨modes.foldr insertMode [], active, false⟩
 
+/-- what the options check: `WithInitialMode` panics on a mode without id, `resource.WithInitialRecord` (applied
+by `NewModel`) panics when an id is configured twice.  Nothing else is checked. -/
+def configOk (modes : List Mode) : Bool :=
+  modes.all (fun m => m.id != "") && decide ((modes.map (·.id)).Nodup)
+
+/-- `NewModel(WithInitialMode(modes…), WithInitialActiveMode(active))`, `none` = the construction panics -/
+def St.config? (modes : List Mode) (active : Mode) : Option St :=
+  if configOk modes then some (St.config modes active) else none
+
 def replaceMode (m : Mode) (l : List Mode) : List Mode := l.map (fun x => if x.id = m.id then m else x)
 
 def eraseMode (id : String) (l : List Mode) : List Mode := l.filter (fun x => x.id ≠ id)
@@ -125,6 +134,30 @@ def mergeMode (dst src : Mode) : Option Mask → Mode
 def writesNormal : Option Mask → Bool
   | none => true
   | some mask => Field.normal ∈ mask.paths
+
+/-- The Model-level write options `UpdateMode` / `DeleteMode` hand through to the collection, beyond the
+update mask and allow-missing (the servers never pass them). -/
+structure WOpts where
+  /-- `resource.WithCreateIfAbsent()`: the update is an upsert -/
+  createIfAbsent : Bool := false
+  /-- `resource.WithExpectAbsent()` -/
+  expectAbsent : Bool := false
+  /-- `resource.WithExpectedValue(m)` -/
+  expected : Option Mode := none
+  deriving DecidableEq, Repr
+
+/-- `resource.WithMoreUpdatePaths("id")` (added by `updateMode` after the caller's options): a nil mask
+stays nil (it writes every field anyway), any other mask also names `id`. -/
+def maskWithId : Option Mask → Option Mask
+  | none => none
+  | some k => some { k with paths := Field.id :: k.paths }
+
+/-- the `WithExpectedValue` precondition of a write: fails when a value is expected and the current one
+(for an upsert of an absent id: the blank message) differs -/
+def expectedFails (expected : Option Mode) (current : Mode) : Bool :=
+  match expected with
+  | none => false
+  | some e => e != current
 
 /-! ### Model operations (model.go) -/
 
@@ -157,8 +190,8 @@ inductive Op where
   -- Model API
   | create (m : Mode) (cands : List String)
   | add (m : Mode)
-  | update (m : Mode) (mask : Option Mask)
-  | delete (id : String) (allowMissing : Bool)
+  | update (m : Mode) (mask : Option Mask) (w : WOpts)
+  | delete (id : String) (allowMissing : Bool) (expected : Option Mode)
   | setActive (m : Mode)
   | changeActive (id : String) (now : Nat)
   | clear (now : Nat)                                  -- ChangeToNormalMode
@@ -182,22 +215,35 @@ def otherNormal (s : St) (id : String) : Bool :=
   | some n => n.id != id
   | none => false
 
-def updateMode (s : St) (m : Mode) (mask : Option Mask) : St × Res :=
-  -- the guard added by the fix: becoming normal requires that no other mode is normal
+def updateMode (s : St) (m : Mode) (mask : Option Mask) (w : WOpts) : St × Res :=
+  -- the guard added by the fix 7f1dc6a: becoming normal requires that no other mode is normal
   if m.normal ∧ writesNormal mask ∧ otherNormal s m.id then
     (s, .err .alreadyExists)
   else if maskInvalid mask then (s, .err .invalidArgument)                  -- FieldUpdater.Validate
-  else match find s m.id with
-    | none => (s, .err .notFound)
+  else
+    -- modes.Update(mode.Id, mode, opts..., WithMoreUpdatePaths("id"))
+    match find s m.id with
     | some old =>
-      let new := mergeMode old m mask                  -- (a non-nil mask with no paths changes nothing)
-      ({ s with modes := replaceMode new s.modes }, .ok (some new))
+      if w.expectAbsent then (s, .err .alreadyExists)                       -- ExpectAbsentPreconditionFailed
+      else if expectedFails w.expected old then (s, .err .failedPrecondition) -- ExpectedValuePreconditionFailed
+      else
+        let new := mergeMode old m (maskWithId mask)     -- (a non-nil mask with no paths changes nothing)
+        ({ s with modes := replaceMode new s.modes }, .ok (some new))
+    | none =>
+      if !w.createIfAbsent then (s, .err .notFound)
+      else if expectedFails w.expected Mode.blank then (s, .err .failedPrecondition)
+      else
+        -- upsert: the record is created from the blank message; it always carries its id
+        let new := mergeMode Mode.blank m (maskWithId mask)
+        ({ s with modes := insertMode new s.modes }, .ok (some new))
 
-def deleteMode (s : St) (id : String) (allowMissing : Bool) : St × Res :=
+def deleteMode (s : St) (id : String) (allowMissing : Bool) (expected : Option Mode) : St × Res :=
   if id = s.active.id then (s, .err .failedPrecondition)                     -- ErrDeleteActiveMode
   else match find s id with
     | none => if allowMissing then (s, .ok none) else (s, .err .notFound)
-    | some _ => ({ s with modes := eraseMode id s.modes }, .ok none)
+    | some old =>
+      if expectedFails expected old then (s, .err .failedPrecondition)       -- ExpectedValuePreconditionFailed
+      else ({ s with modes := eraseMode id s.modes }, .ok none)
 
 def setActive (s : St) (m : Mode) : St × Res :=
   match find s m.id with
@@ -217,17 +263,17 @@ def step (s : St) : Op → St × Res
     else match createOrAdd s m [] with
       | (s', .ok _) => (s', .ok none)
       | r => r
-  | .update m mask => updateMode s m mask
-  | .delete id am => deleteMode s id am
+  | .update m mask w => updateMode s m mask w
+  | .delete id am ex => deleteMode s id am ex
   | .setActive m => setActive s m
   | .changeActive id now => changeActive s id now
   | .clear now => changeToNormal s now
   | .findMode id => (s, match find s id with | some m => .ok (some m) | none => .err .notFound)
   | .sCreate m cands => if m.id ≠ "" then (s, .err .invalidArgument) else createOrAdd s m cands
-  | .sUpdate m mask => if m.id = "" then (s, .err .invalidArgument) else updateMode s m mask
+  | .sUpdate m mask => if m.id = "" then (s, .err .invalidArgument) else updateMode s m mask {}
   | .sDelete id am =>
     if id = "" then (s, .err .invalidArgument)
-    else match deleteMode s id am with
+    else match deleteMode s id am none with
       | (s', .ok _) => (s', .ok none)
       | r => r
   | .sChangeActive id now => if id = "" then (s, .err .invalidArgument) else changeActive s id now
@@ -246,6 +292,11 @@ def updateModeUnfixed (s : St) (m : Mode) (mask : Option Mask) : St × Res :=
     | some old =>
       let new := mergeMode old m mask                  -- (a non-nil mask with no paths changes nothing)
       ({ s with modes := replaceMode new s.modes }, .ok (some new))
+
+/-- `Collection.Update` as `updateMode` called it before the upsert fix: the caller's mask as it is. An
+upsert (`WithCreateIfAbsent`) under a mask without `id` stored a record whose `Id` field was empty,
+i.e. not the key it was stored under. -/
+def upsertRecordUnfixed (m : Mode) (mask : Option Mask) : Mode := mergeMode Mode.blank m mask
 
 def deleteModeUnfixed (s : St) (id : String) (_allowMissing : Bool) : St × Res :=
   if id = s.active.id then (s, .err .failedPrecondition)
